@@ -92,12 +92,12 @@ func (cl *client) loop() {
 	t := run.tape
 	defer func() { cl.done = true; run.doneClients++ }()
 	for !run.stop {
-		if run.phase != "chaos" && run.phase != "settle" {
+		if run.phase != "chaos" {
 			return
 		}
 		think := time.Duration(1+t.Choose(rt.StPlan, 8)) * run.cfg.HB / 16
 		time.Sleep(think)
-		if run.phase != "chaos" && run.phase != "settle" {
+		if run.phase != "chaos" {
 			return
 		}
 		ni := run.pickClientTarget()
@@ -215,7 +215,7 @@ func (a *admin) submit(ni *nodeInc, t Task, kind string, patience time.Duration)
 
 func (a *admin) bootstrap(c Config) {
 	run := a.run
-	for tries := 0; tries < 50 && !run.stop && run.phase == "chaos"; tries++ {
+	for !run.stop && (run.phase == "chaos" || run.phase == "settle") {
 		ni := run.nodes[0].inc
 		if !ni.live() {
 			time.Sleep(run.cfg.HB)
